@@ -43,6 +43,7 @@ type session = {
   hlive : C.hnode list array; hdead : C.hnode list array;
   mutable node_seq : int;
   mutable bset : C.bitset;
+  mutable bset2 : C.bitset;
   mutable dl : C.dlist; mutable labs : int list; mutable lnode_seq : int;
   mutable pool : C.addr list; mutable plive : C.addr list;
   mutable tree : C.tree; mutable tlive : (int * C.z) list; mutable tnode_seq : int;   (* live nodes: (id, key) in insertion order *)
@@ -99,6 +100,9 @@ let vec_cmd (s : session) (k : int) (t : string list) : string =
       let r = if Z.equal r (z_of_cz C.sIZE_MAX) then Z.minus_one else r in fin ~res:(Printf.sprintf "idx=%s " (Z.to_string r)) ((C.EOk, a), v)
   | _ -> "badop"
 
+let unhex (h : string) : C.z list =
+  if h = "-" then [] else List.init (String.length h / 2) (fun i -> ci (int_of_string ("0x" ^ String.sub h (2 * i) 2)))
+
 let hash_state (h : C.hash) (full : bool) : string =
   let b = Buffer.create 128 in
   let hh = ref 7 in
@@ -123,6 +127,29 @@ let hash_cmd (s : session) (k : int) (t : string list) : string =
        let (a2, h') = C.hash_insert C.hash_primes mok s.arena h n in
        s.arena <- a2; s.h.(k) <- h'; s.hlive.(k) <- s.hlive.(k) @ [n];
        Printf.sprintf "ins=%s %s" (zi n.C.hn_id) (hash_state h' (small h')))
+  | ("ni" | "ng" as op) :: hex :: _ ->
+    (* named nodes: hash = NameHashModel.hash_name, key = name_key (C18_name_get_correct) *)
+    let bytes = unhex hex in
+    let hc = C.hash_name bytes in
+    (match C.name_get h bytes with
+     | Some n -> Printf.sprintf "%s=%s hc=%s %s" (if op = "ng" then "get" else "dup") (zi n.C.hn_id) (zi hc) (hash_state h (small h))
+     | None when op = "ng" -> Printf.sprintf "get=-1 hc=%s %s" (zi hc) (hash_state h (small h))
+     | None ->
+       let (r, a1) = C.alloc_oneshot mok s.arena (ci 48) in
+       s.arena <- a1;
+       (match r with
+        | None -> "oom"
+        | Some _ ->
+          let (r2, a2) = C.arena_dup mok s.arena bytes true in
+          s.arena <- a2;
+          (match r2 with
+           | None when bytes <> [] -> "oom2"
+           | _ ->
+             let n = C.name_node (ci s.node_seq) bytes in
+             s.node_seq <- s.node_seq + 1;
+             let (a3, h') = C.hash_insert C.hash_primes mok s.arena h n in
+             s.arena <- a3; s.h.(k) <- h'; s.hlive.(k) <- s.hlive.(k) @ [n];
+             Printf.sprintf "ins=%s hc=%s %s" (zi n.C.hn_id) (zi hc) (hash_state h' (small h')))))
   | "r" :: j :: _ ->
     if s.hlive.(k) = [] then "skip" else begin
       let (i, n) = nth_mod s.hlive.(k) (Z.of_string j) in
@@ -212,6 +239,11 @@ let bitset_cmd (s : session) (t : string list) : string =
   | "fa" :: _ -> fin (same (C.bs_fill_all b))
   | "t" :: n :: _ -> fin (same (C.bs_truncate b (cs n)))
   | "x" :: _ -> let (a', b') = C.bs_release s.arena b in fin ((C.EOk, a'), b')
+  | "sw" :: _ -> let o = s.bset2 in s.bset2 <- b; fin (same o)
+  | "and" :: _ -> fin (same (C.bs_and b s.bset2))
+  | "andn" :: _ -> fin (same (C.bs_and_not b s.bset2))
+  | "or" :: _ -> fin (same (C.bs_or b s.bset2))
+  | "cp" :: _ -> fin (C.bs_copy_from mok s.arena b s.bset2)
   | _ -> "badop"
 
 (* ---- list / pool *)
@@ -255,8 +287,6 @@ let pool_cmd (s : session) (t : string list) : string =
   | _ -> "badop"
 
 (* ---- strings *)
-let unhex (h : string) : C.z list =
-  if h = "-" then [] else List.init (String.length h / 2) (fun i -> ci (int_of_string ("0x" ^ String.sub h (2 * i) 2)))
 let str_state ?(pre = "") (e : C.serr) (s : C.str) : string =
   let content = C.str_abs s in
   let h = ref 7 in
@@ -310,7 +340,7 @@ let bv_cmd (w : string) (t : string list) : string =
 let new_session minb st =
   { arena = C.arena_init (cs minb) (cs st); direct = []; v = Array.make 4 C.vec_empty; h = Array.make 2 C.hash_empty;
     hlive = Array.make 2 []; hdead = Array.make 2 []; node_seq = 0; tree = C.tree_empty; tlive = []; tnode_seq = 2;
-    bset = C.bitset_empty; dl = C.dlist_empty; labs = []; lnode_seq = 1; pool = []; plive = [] }
+    bset = C.bitset_empty; bset2 = C.bitset_empty; dl = C.dlist_empty; labs = []; lnode_seq = 1; pool = []; plive = [] }
 
 let () =
   try
@@ -321,7 +351,25 @@ let () =
         match toks, !sess with
         | [], _ -> ""
         | "N" :: minb :: st :: _, _ -> let s = new_session minb st in sess := Some s; reset_strs (); "N " ^ arena_dump s.arena
-        | ("AO" | "AR" | "AF" | "AZ" | "AS" | "AD" | "AG" | "V" | "H" | "T" | "L" | "P" | "K") :: _, None -> "nosession"
+        | ("AO" | "AR" | "AF" | "AZ" | "AS" | "AD" | "AG" | "AP" | "V" | "H" | "T" | "L" | "P" | "K") :: _, None -> "nosession"
+        | "TP" :: dbl :: dir :: root :: n :: specs, _ ->
+          (* the model's single_rotate / double_rotate on the same explicit node graph (model ids = index + 1; 0 = null) *)
+          let n = int_of_string n in
+          let id i = if i = 0 then ci 0 else ci (i + 1) in
+          let h = ref C.PLeaf in
+          List.iteri (fun i sp -> if i < n then
+            match String.split_on_char ',' sp with
+            | [l; r; c] -> h := C.hset !h (id (i + 1)) { C.t_left = id (int_of_string l); C.t_right = id (int_of_string r); C.t_red = (c <> "0"); C.t_key = ci 0 }
+            | _ -> ()) specs;
+          let d = dir <> "0" in
+          let (h', sroot) = if dbl <> "0" then C.double_rotate !h (id (int_of_string root)) d else C.single_rotate !h (id (int_of_string root)) d in
+          let back z = let v = Z.to_int (z_of_cz z) in if v = 0 then 0 else v - 1 in
+          let b = Buffer.create 64 in
+          for i = 1 to n do
+            let nd = C.hget h' (id i) in
+            Buffer.add_string b (Printf.sprintf " %d,%d,%d" (back nd.C.t_left) (back nd.C.t_right) (if nd.C.t_red then 1 else 0))
+          done;
+          Printf.sprintf "TP s=%d%s" (back sroot) (Buffer.contents b)
         | "AO" :: size :: _, Some s ->
           (* the pointer-level scan loop (ArenaChainModel.scan_fixed) and the list-level scan of the arena model agree
              (a theorem for chains of any length: C18_arena_chain_scan_general; re-checked on every allocation) *)
@@ -339,6 +387,13 @@ let () =
             s.arena <- C.free_reusable s.arena p (if usealloc <> "0" then asz else req);
             s.direct <- remove_nth s.direct i;
             "AF " ^ canon (Some p) ^ " " ^ arena_dump s.arena end
+        | "AP" :: n :: c0 :: _, Some s ->
+          let n = int_of_string n and c0 = Z.to_int (Z.rem (Z.of_string c0) (Z.of_int 1000000)) in
+          let text = List.init n (fun i -> ci (33 + (c0 + i * 7) mod 90)) in
+          let (r, a') = C.arena_sformat mok s.arena text in s.arena <- a';
+          (match r with
+           | Some (p, bytes) -> "AP " ^ canon (Some p) ^ " b=" ^ String.concat "" (List.map (fun c -> Printf.sprintf "%02x" (Z.to_int (z_of_cz c) land 255)) bytes) ^ " " ^ arena_dump a'
+           | None -> "AP null b=- " ^ arena_dump a')
         | "AD" :: nt :: d :: _, Some s ->
           let (r, a') = C.arena_dup mok s.arena (unhex d) (nt <> "0") in s.arena <- a';
           (match r with
@@ -352,7 +407,7 @@ let () =
            | None -> "AG e=1 emb=0 p=null " ^ arena_dump a')
         | "AZ" :: hard :: _, Some s ->
           s.arena <- C.arena_reset s.arena (hard <> "0");
-          s.tree <- C.tree_empty; s.tlive <- []; s.dl <- C.dlist_empty; s.labs <- []; s.pool <- []; s.plive <- []; s.bset <- C.bitset_empty;
+          s.tree <- C.tree_empty; s.tlive <- []; s.dl <- C.dlist_empty; s.labs <- []; s.pool <- []; s.plive <- []; s.bset <- C.bitset_empty; s.bset2 <- C.bitset_empty;
           s.direct <- []; Array.fill s.v 0 4 C.vec_empty; Array.fill s.h 0 2 C.hash_empty; Array.fill s.hlive 0 2 []; Array.fill s.hdead 0 2 [];
           "AZ " ^ arena_dump s.arena
         | "AS" :: _, Some s ->
